@@ -145,6 +145,34 @@ class DC:
 
 
 @dataclasses.dataclass
+class DCPrivRun:
+    """private members side by side, in front, in the middle and at the end"""
+    _p0: typing.Any
+    _p1: typing.Any
+    a: typing.Any
+    _q0: typing.Any
+    _q1: typing.Any
+    _q2: typing.Any
+    b: typing.Any
+    _r0: typing.Any = 0
+    _r1: typing.Any = 1
+
+
+class PlainPrivRun:
+    a: typing.Any
+    _q0: typing.Any
+    _q1: typing.Any
+    b: typing.Any
+    _r0: typing.Any
+    _r1: typing.Any
+    _r2: typing.Any
+
+
+class SlotsPrivRun:
+    __slots__ = ("_p0", "_p1", "_p2", "a", "_q0", "_q1", "b")
+
+
+@dataclasses.dataclass
 class DCCallable:
     """data whose instances can be called (a virtual subclass of collections.abc.Callable) and count as false"""
     first: typing.Any
@@ -326,8 +354,8 @@ def case(draw):
         return {"cat": cat, "kind": kind, "content": list(d.items())}
     if cat == "structured":
         kind = draw(st.sampled_from(["DC", "DCFrozen", "DCSlots", "Plain", "SlotsOnly", "VarsOnly", "SlotsAnn", "SlotsAnnSub", "SlotsReordered", "DCSub", "DCMapNames", "SlotsMapNames",
-                                     "PlainBadHint", "SlotsBadHint", "PlainBadHintSub", "SigKwOnly", "SigKwOnlySlots", "SlotsOnlySub", "DCCallable", "PlainCallable"]))
-        n = {"DCCallable": 2, "PlainCallable": 2, "SlotsOnlySub": 3, "PlainBadHint": 3, "SlotsBadHint": 3, "PlainBadHintSub": 3, "SigKwOnly": 3, "SigKwOnlySlots": 3, "DC": 3, "DCFrozen": 2, "DCSlots": 2, "Plain": 3, "SlotsOnly": 3, "VarsOnly": draw(st.integers(0, 3)),
+                                     "PlainBadHint", "SlotsBadHint", "PlainBadHintSub", "SigKwOnly", "SigKwOnlySlots", "SlotsOnlySub", "DCCallable", "PlainCallable", "DCPrivRun", "PlainPrivRun", "SlotsPrivRun"]))
+        n = {"DCPrivRun": 2, "PlainPrivRun": 2, "SlotsPrivRun": 2, "DCCallable": 2, "PlainCallable": 2, "SlotsOnlySub": 3, "PlainBadHint": 3, "SlotsBadHint": 3, "PlainBadHintSub": 3, "SigKwOnly": 3, "SigKwOnlySlots": 3, "DC": 3, "DCFrozen": 2, "DCSlots": 2, "Plain": 3, "SlotsOnly": 3, "VarsOnly": draw(st.integers(0, 3)),
              "SlotsAnn": 2, "SlotsAnnSub": 3, "SlotsReordered": 2, "DCSub": 3, "DCMapNames": 3, "SlotsMapNames": 2}[kind]
         vals = [draw(st.one_of(two_elem, anyval)) for _ in range(n)]
         return {"cat": cat, "kind": kind, "content": vals}
@@ -384,6 +412,14 @@ def build(c):
         if kind == "DC":
             x = DC(v[0], v[1], v[2])
             pairs = [("first", v[0]), ("second", v[1])]
+        elif kind in ("DCPrivRun", "PlainPrivRun", "SlotsPrivRun"):
+            cls = {"DCPrivRun": DCPrivRun, "PlainPrivRun": PlainPrivRun, "SlotsPrivRun": SlotsPrivRun}[kind]
+            x = object.__new__(cls)
+            names_ = [f.name for f in dataclasses.fields(cls)] if kind == "DCPrivRun" else list(cls.__annotations__) if kind == "PlainPrivRun" else list(cls.__slots__)
+            for n_ in names_:
+                object.__setattr__(x, n_, ("hidden", n_))
+            x.a, x.b = v
+            pairs = [("a", v[0]), ("b", v[1])]
         elif kind in ("DCCallable", "PlainCallable"):
             x = {"DCCallable": DCCallable, "PlainCallable": PlainCallable}[kind](v[0], v[1])
             pairs = [("first", v[0]), ("other", v[1])]
@@ -482,7 +518,7 @@ def build(c):
 def nontrivial(c, x):
     if c["cat"] == "empty" or c["kind"] in ("generator", "iter", "map", "sizediter", "sizedcollectioniter"):
         return True
-    if c["cat"] == "namedtuple" or c["kind"] in ("DC", "Plain", "SlotsOnly", "VarsOnly", "SlotsAnn", "SlotsAnnSub", "SlotsReordered", "DCSub", "DCMapNames", "SlotsMapNames", "PlainBadHint", "SlotsBadHint", "PlainBadHintSub", "SigKwOnly", "SigKwOnlySlots", "SlotsOnlySub", "DCCallable", "PlainCallable"):
+    if c["cat"] == "namedtuple" or c["kind"] in ("DC", "Plain", "SlotsOnly", "VarsOnly", "SlotsAnn", "SlotsAnnSub", "SlotsReordered", "DCSub", "DCMapNames", "SlotsMapNames", "PlainBadHint", "SlotsBadHint", "PlainBadHintSub", "SigKwOnly", "SigKwOnlySlots", "SlotsOnlySub", "DCCallable", "PlainCallable", "DCPrivRun", "PlainPrivRun", "SlotsPrivRun"):
         return True
     content = c["content"]
     if c["cat"] in ("pairs", "mixed") and content:
